@@ -117,6 +117,13 @@ def items(tier, seed):
         out.append({'h': 'trunc', 'name': name, 'S': S, 'opts': dict(o), 'ml': False})
         out.append({'h': 'trunc', 'name': name, 'S': S, 'opts': dict(o, lang='de', pack='*'),
                     'ml': True})
+    # every prefix (character-wise truncation point) of every skeleton, incl. the faulty ones
+    docs = [(n, v[0], v[1]) for n, v in skeletons.WELL.items()]
+    docs += [('F:' + n, v[0], v[1]) for n, v in skeletons.FAULTY.items()]
+    for name, S, o in docs:
+        out.append({'h': 'prefix', 'name': name, 'S': S, 'opts': dict(o), 'cost': len(S)})
+    for name, S, o in [(n, v[0], v[1]) for n, v in skeletons.FAULTY.items()]:
+        out.append({'h': 'trunc', 'name': 'F:' + name, 'S': S, 'opts': dict(o), 'ml': False})
     out.append({'h': 'any', 'N': 1, 'o': 0, 'ml': False, 'twin': True})
     return out
 
@@ -133,6 +140,8 @@ def build(item):
                            splice=False, accept_exit=True, exc_tag='C07')
     if h == 'hole':
         return build_hole(item, twin)
+    if h == 'prefix':
+        return build_prefix(item)
     S = item['S']
     pre_ok, suf_ok = srcmodel.rebase_ok(S, nosp=bool(item['opts'].get('nosp')))
     prop, conc = offrun.make(S, item['opts'], item['ml'], None, pre_ok, suf_ok, exit_ok=True)
@@ -198,6 +207,38 @@ def build_hole(item, twin):
     def concrete(w):
         idx = [w['a'], w['b'], w['c']]
         return run(idx) if pre_ok(idx) else None
+    return prop, concrete
+
+
+def build_prefix(item):
+    S = item['S']
+    variants = [dict(item['opts']), dict(item['opts'], lang='de', pack='*'),
+                dict(item['opts'], nosp=True, seqs=True)]
+
+    def run(k):
+        doc = S[:k]
+
+        def go(_w):
+            for o in variants:
+                for ml in (False, True):
+                    try:
+                        yal.run_native(doc, yal.mkopts(o), ml)
+                    except SystemExit:
+                        pass
+            return None
+        r = harness.native_guarded(go, {'doc': doc}, 20)
+        return ('C07 ' + str(r)) if r is not None else None
+
+    def prop(k: int):
+        from vf import driver as D
+        if not (0 <= k <= len(S)):
+            return D.SKIP
+        kk = list(range(len(S) + 1))[k]
+        with D.NoTracing():
+            return run(int(kk)) or True
+
+    def concrete(w):
+        return run(w['k']) if 0 <= w['k'] <= len(S) else None
     return prop, concrete
 
 
